@@ -62,6 +62,7 @@ def model_obs(rec, step):
 
 # ---------------------------------------------------------------- bundles
 
+import contextlib
 import gzip
 import hashlib
 import re
@@ -289,6 +290,24 @@ def run_property(chk, prop, note=None):
         return chk.finish()
     chk.oblige("harness builds against the current tree", True)
     binary, _ = vlib.build_harness()
+    # the granularity assumption probed on the real code (family gran): every
+    # persistence call made inside a cache operation finds the cache mutex held
+    gp = os.path.join(vlib.BUILD, "gran-%s-%d.jsonl" % (prop, os.getpid()))
+    grc, gout = vlib.run_harness(binary, "gran", gp, seed=chk.seed, n=1)
+    grecs = vlib.read_jsonl(gp) if grc == 0 else []
+    with contextlib.suppress(OSError):
+        os.remove(gp)
+    gbad = [r for r in grecs if r.get("unlocked") or r.get("violations") or r.get("error")]
+    chk.oblige("granularity probe: no persistence call inside a cache operation finds the cache mutex free (%d scenarios on the real code)" % len(grecs), grc == 0 and not gbad)
+    chk.coverage["granularity_probe_scenarios"] = len(grecs)
+    gran_violations = 0
+    for r in gbad[:1]:
+        cons = (r.get("violations") or [])
+        chk.violation({"property": prop, "what": (cons[0] if cons else "a persistence call inside a cache operation is made while the cache mutex is free, so concurrent requests can interleave inside it")
+                       + " - " + "; ".join((r.get("unlocked") or [])[:3]),
+                       "scenario": r["case"], "unlocked_calls": r.get("unlocked"), "consequences": cons, "error": r.get("error"),
+                       "replay": "harness family gran (VERIF_FAMILY=gran): create, purge, reload with a Destroy completing inside the load; Destroy with a look-up inside the delete; PurgeSessions with a look-up inside the flush"})
+        gran_violations += 1
     fams = FAMILIES.get(prop, DEFAULT_FAMILIES)
     proj = PROJECTION[prop]
     total_h = total_s = 0
@@ -356,6 +375,7 @@ def run_property(chk, prop, note=None):
         except vlib.Machinery:
             rec2, x2 = rec, x
         chk.violation(replay_record(prop, rec2, x2), signature=x2.get("signature"), what=x2["what"])
+    nviol += gran_violations
     chk.coverage["oracle_holds_on_impl"] = nviol == 0
 
     if nviol == 0 and rel_diffs:
